@@ -376,7 +376,7 @@ def detect_variants():
         return _VARIANTS
     import numpy as np
     from cmath import phase
-    from svgpathtools import QuadraticBezier, Arc, Path, Line
+    from svgpathtools import QuadraticBezier, CubicBezier, Arc, Path, Line
     from svgpathtools.polytools import polyroots01
     v, notes = {}, []
     # polyroots de-duplication: [.9,.6,.600001,.4,.2]
@@ -393,12 +393,25 @@ def detect_variants():
     else:
         v['dedup_fixed'] = True
         notes.append('polyroots de-duplication probe returned %s: neither known variant' % got)
-    # redundancy loop of bezier_intersections
+    # redundancy loop of bezier_intersections (remove-while-iterating pinned / marking repaired).
+    # Two witnesses: the old one distinguishes on trees with the open box test (1 pair pinned,
+    # 2 repaired; 3 on both variants since the boxes are closed), the new one on the current code:
+    # Cubic.intersect(Quadratic) finds 1 of the 2 crossings when pairs are removed from the list
+    # being iterated, 2 when they are marked
     st, r = guarded(lambda: QuadraticBezier(54j, 18 + 54j, 36 + 45j).intersect(QuadraticBezier(22j, 18 + 94j, 36 + 13j)), 20)
-    n = len(r) if st == 'ok' else -1
-    v['rm_fixed'] = (n == 2)
-    if n not in (1, 2):
-        notes.append('bezier_intersections probe returned %s pairs: neither known variant' % n)
+    n_old = len(r) if st == 'ok' else -1
+    wa = QuadraticBezier(4 + 73j, 30 + 61j, 90 + 45j)
+    wb = CubicBezier(50 + 59j, 27 + 25j, 35 + 25j, 38 + 71j)
+    st, r = guarded(lambda: wb.intersect(wa), 20)
+    n_new = len(r) if st == 'ok' else -1
+    st, r = guarded(lambda: wa.intersect(wb), 20)
+    n_new_swapped = len(r) if st == 'ok' else -1
+    if n_old == 1 or n_new == 1 or n_new != n_new_swapped:
+        v['rm_fixed'] = False
+    else:
+        v['rm_fixed'] = True
+        if n_new != 2:
+            notes.append('bezier_intersections redundancy probes returned %s / %s pairs: neither known variant' % (n_old, n_new))
     # Arc.phase2t for delta < 0
     try:
         arc = Arc(0j, 1 + 1j, 0, False, False, 1 + 1j)
@@ -551,3 +564,27 @@ def box_touch_pair(rng, k1, k2):
     if d1 == d2 or (d1[0] == 'L' and d1[1] == d1[2]) or (d2[0] == 'L' and d2[1] == d2[2]):
         return None
     return d1, d2, {'config': 'box-touch', 'shape': shape, 'contacts': contacts, 'scale': 40 * s}
+
+
+# ------------------------------------------------------------ integer-grid Bezier pairs
+# witnesses of the remove-while-iterating loop on the current (closed-box) code: with the loop
+# pinned the second operand order loses one of the two crossings
+SKIP_WITNESSES = [
+    (('Q', 4 + 73j, 30 + 61j, 90 + 45j), ('C', 50 + 59j, 27 + 25j, 35 + 25j, 38 + 71j)),
+    (('C', 54 + 62j, 81 + 57j, 91 + 30j, 22 + 52j), ('C', 67 + 4j, 18 + 22j, 94 + 100j, 47 + 75j)),
+    (('Q', 42 + 26j, 16 + 93j, 72 + 16j), ('Q', 80 + 100j, 52 + 13j, 21 + 55j)),
+]
+
+
+def integer_bezier_pair(rng):
+    """a Quadratic/Cubic pair with integer control points in [0,100]^2 (times a power of two):
+    sub-curve boxes coincide exactly along shared coordinates, several crossings are common, and
+    the redundancy marking of bezier_intersections fires often"""
+    s = rng.choice([1.0, 1.0, 0.125, 4.0])
+    def mk(k):
+        n = 3 if k == 'Q' else 4
+        return (k,) + tuple(complex(rng.randint(0, 100), rng.randint(0, 100)) * s for _ in range(n))
+    d1, d2 = mk(rng.choice('QC')), mk(rng.choice('QC'))
+    if d1 == d2:
+        return None
+    return d1, d2, {'config': 'integer-grid', 'scale': 100 * s}
